@@ -389,6 +389,7 @@ impl Harness {
         }
         match op {
             Op::Send { c, stream, topic, part, msgs } => self.op_send(*c, stream, topic, part, msgs).await,
+            Op::SendThenRestart { stream, topic, partition, msgs, kind } => self.op_send_then_restart(stream, topic, *partition, msgs, *kind).await,
             Op::SendThenPurge { stream, topic, partition, msgs } => {
                 if self.session_ready(0) && self.model.topic_ids(stream, topic).is_some() {
                     let mut messages: Vec<Message> = msgs.iter().map(|m| m.to_message()).collect();
@@ -609,6 +610,12 @@ impl Harness {
         if expect_ok && full_before.is_none() && matches!(result, Err(IggyError::TopicFull(_, _))) && self.model.streams[&sid].topics[&tid].max_size.is_some() && !self.model.delete_oldest {
             // a size-limited topic may be full; whether it is, is judged by C15's check only
             return;
+        }
+        if expect_ok && !matches!(part, Part::Id(_)) {
+            if let Err(IggyError::PartitionNotFound(p, _, _)) = &result {
+                // C17: a balanced or keyed send always lands on an existing partition
+                self.violate("C17", "selected_partition_exists", if matches!(part, Part::Balanced) { "balanced_send_hits_missing_partition" } else { "keyed_send_hits_missing_partition" }, format!("send to {sid}/{tid} {part:?} was refused with PartitionNotFound({p}, ..) although the topic has {} partitions", partition_ids.len()));
+            }
         }
         if expect_ok && !ok(&result) {
             self.violate("C06", "valid_send_fails", format!("{:?}", result.as_ref().err().map(|e| e.as_string())), format!("valid send to {sid}/{tid} {part:?} failed: {:?}", result.as_ref().err()));
@@ -1200,7 +1207,56 @@ impl Harness {
         self.sim.settle().await;
     }
 
+    /// A send acknowledged right before a clean stop (nothing is allowed to settle in between).
+    async fn op_send_then_restart(&mut self, stream: &IdRef, topic: &IdRef, partition: u32, msgs: &[MsgSpec], kind: StopKind) {
+        if !self.world.is_up() || !self.session_ready(0) {
+            return;
+        }
+        let Some((sid, tid)) = self.model.topic_ids(stream, topic) else { return };
+        let Some(pm) = self.model.streams[&sid].topics[&tid].partitions.get(&partition) else { return };
+        if pm.tainted || self.model.dedup || self.model.streams[&sid].topics[&tid].max_size.is_some() {
+            return;
+        }
+        self.sim.settle().await;
+        let mut messages: Vec<Message> = msgs.iter().map(|m| m.to_message()).collect();
+        let lo = self.sim.now_micros();
+        let seq0 = self.sim.steps();
+        let sent = self.client(0).unwrap().send_messages(&stream.to_identifier(), &topic.to_identifier(), &Partitioning::partition_id(partition), &mut messages).await;
+        let seq1 = self.sim.steps();
+        let hi = self.sim.now_micros();
+        if sent.is_err() {
+            return;
+        }
+        self.model_append(sid, tid, partition, msgs, lo, hi, (seq0, seq1));
+        self.stats.probe("send_then_restart_done");
+        self.restart_inner(kind, false, false).await;
+        if self.fatal {
+            return;
+        }
+        // the acknowledged batch (and everything before it) is there
+        let pm = self.model.streams[&sid].topics[&tid].partitions[&partition].clone();
+        let from = pm.first_retained;
+        let polled = self.client(0).unwrap().poll_messages(&IdRef::Num(sid).to_identifier(), &IdRef::Num(tid).to_identifier(), Some(partition), &Consumer::default(), &PollingStrategy::offset(from), pm.msgs.len() as u32 + 10, false).await;
+        match polled {
+            Ok(polled) => {
+                let got: Vec<(u64, u128)> = polled.messages.iter().map(|m| (m.offset, m.id)).collect();
+                let want: Vec<(u64, u128)> = pm.msgs.iter().enumerate().skip(from as usize).map(|(i, m)| (i as u64, m.id)).collect();
+                let same = got.len() == want.len() && got.iter().zip(want.iter()).all(|(g, w)| g.0 == w.0 && (w.1 == 0 || g.1 == w.1));
+                if !same {
+                    let tag = if got.len() < want.len() { "acknowledged_send_lost" } else { "messages_altered" };
+                    self.violate("C03", "restart_preserves_messages", tag, format!("partition {sid}/{tid}/{partition}: a send of {} messages was acknowledged right before a clean stop; after the restart it serves {} messages, {} were accepted (last offsets {:?} vs {:?})", msgs.len(), got.len(), want.len(), got.last(), want.last()));
+                    self.mark_tainted(sid, tid);
+                }
+            }
+            Err(e) => self.violate("C03", "restart_preserves_messages", "poll_error", format!("poll of {sid}/{tid}/{partition} after the restart failed: {e:?}")),
+        }
+    }
+
     async fn op_restart(&mut self, kind: StopKind, lose_indexes: bool) {
+        self.restart_inner(kind, lose_indexes, true).await
+    }
+
+    async fn restart_inner(&mut self, kind: StopKind, lose_indexes: bool, quiesce: bool) {
         if !self.world.is_up() {
             return;
         }
@@ -1208,13 +1264,15 @@ impl Harness {
         // always compared: a restart that changes what is served is reported under its own property,
         // and for every other check it marks the affected partitions so nothing is mis-attributed
         self.snapshot_horizon = None;
-        let before = Some(crate::snapshot::take(self).await);
+        let before = if quiesce { Some(crate::snapshot::take(self).await) } else { None };
         // drop client connections first: the server sees them close
         for c in 0..self.clients.len() {
             self.clients[c] = None;
             self.model.sessions[c] = MSession::default();
         }
-        self.sim.settle().await;
+        if quiesce {
+            self.sim.settle().await;
+        }
         if kind == StopKind::Kill {
             // "explicit flush of every partition" variant of a clean restart: flush, settle, kill
             self.flush_everything().await;
